@@ -64,7 +64,7 @@ func main() {
 		os.Exit(writeManifest(*repo, *verif))
 	}
 	if *selftest {
-		os.Exit(runSelftest(*verif))
+		os.Exit(runSelftest(*repo, *verif))
 	}
 	if *replay != "" {
 		b, err := os.ReadFile(*replay)
@@ -154,7 +154,7 @@ func runProp(repo, verif string, pd *propDef, tier string, seed int) (code int) 
 		runRules(c, pd)
 	}
 	if tier == "thorough" {
-		mr := mutantSweep(repo, pd)
+		mr := mutantSweep(repo, verif, pd)
 		r.Mutants = mr
 	}
 	r.Assume(pd.Assume...)
